@@ -46,6 +46,9 @@ type C11Op struct {
 	Routes  []c11Route `json:"routes,omitempty"` // add: initial routes; route: the new one (1)
 	RouteID string     `json:"route_id,omitempty"`
 	Pattern string     `json:"pattern,omitempty"`
+	// Quiet: the container is asked nothing between this operation and the next one (whatever
+	// it keeps about its content has to follow the operations themselves, not the requests)
+	Quiet bool `json:"quiet,omitempty"`
 }
 
 // C11Case is a history.
@@ -94,6 +97,7 @@ func genC11(t *rapid.T) C11Case {
 		}
 		sort.Ints(idle)
 		kind := rapid.IntRange(0, 11).Draw(t, "opkind")
+		nBefore := len(c.Ops)
 		switch {
 		case kind == 10 && len(idle) > 0:
 			// Remove of a WebService that is not registered (e.g. removed twice): nothing changes
@@ -143,6 +147,9 @@ func genC11(t *rapid.T) C11Case {
 				c.Ops = append(c.Ops, C11Op{Op: "handle", Pattern: []string{"/_h/one", "/_h/two/", "/_h/t/x"}[handles]})
 				handles++
 			}
+		}
+		if len(c.Ops) > nBefore && rapid.IntRange(0, 2).Draw(t, "quiet") == 0 {
+			c.Ops[len(c.Ops)-1].Quiet = true
 		}
 	}
 	return c
@@ -275,6 +282,7 @@ func checkC11History(c C11Case) (vs []*Violation) {
 		}
 	}
 
+	quietSteps := 0
 	for step, op := range c.Ops {
 		where := fmt.Sprintf("after step %d (%s svc=%d root=%q pattern=%q)", step, op.Op, op.Svc, op.Root, op.Pattern)
 		switch op.Op {
@@ -403,6 +411,10 @@ func checkC11History(c C11Case) (vs []*Violation) {
 			everPaths = append(everPaths, op.Pattern, op.Pattern+"sub", strings.TrimRight(op.Pattern, "/"))
 		}
 
+		if op.Quiet && step < len(c.Ops)-1 {
+			quietSteps++
+			continue
+		}
 		// fresh container with the same content in the same order
 		fresh := restful.NewContainer()
 		if c.Router == model.JSR311 {
@@ -464,6 +476,7 @@ func checkC11History(c C11Case) (vs []*Violation) {
 		}
 	}
 	st.Label("steps", int64(len(c.Ops)))
+	st.Label("steps_without_a_request_before_the_next_operation", int64(quietSteps))
 	if sawRemove {
 		labels = append(labels, "history_with_remove")
 	}
